@@ -4,12 +4,12 @@ SPEC = dict(
     driver='c19_allocfault',
     extra=['ref/ref.c', 'ref/ref_sig.c', 'ref/ref_pdu.c', 'ref/ref_pki.c', 'simnet.c'],
     level='fault_enumeration',
-    rule='Catalogue of 60 operations over all modules (context create / configure; KSI_Signature_parse and parseWithPolicy(EMPTY) of 6 signature forms; '
+    rule='Catalogue of 69 operations over all modules (context create / configure; KSI_Signature_parse and parseWithPolicy(EMPTY) of 6 signature forms; '
          'KSI_SignatureVerifier_verify under the internal, calendar, key, publications-file, user-publication and general policy with a matching anchor, '
-         'KSI_verifySignature with the context\'s own anchors; serialize, clone, identity, getters; aggregation / extension PDU parse + HMAC check, '
-         'aggregation response -> signature; sign / extend request construction; blocking signing over TCP and HTTP; extendTo / extend with record / head / '
-         'KSI_extendSignature over TCP and HTTP; tree builder; signature builder (prepend local chain, re-close); block signer with and without masking; '
-         'async signing and extending over TCP and HTTP with the service inside the operation or surviving it; HA service with two endpoints; publications file '
+         'KSI_verifySignature / KSI_verifyDataHash with the context\'s own anchors, KSI_Signature_verifyWithPolicy helper; serialize, clone, identity, getters; aggregation / extension PDU parse + HMAC check, '
+         'aggregation response -> signature; sign / extend request construction; blocking signing over TCP and HTTP (PDU v2 and v1, with level, with debug logging switched on), aggregator configuration request; extendTo / extend with record / head / '
+         'KSI_extendSignature over TCP and HTTP (PDU v2 and v1); tree builder; signature builder (prepend local chain, re-close); block signer with and without masking; '
+         'async signing and extending over TCP and HTTP with the service inside the operation or surviving it, three requests in flight; HA signing and HA extending service with two endpoints; publications file '
          'parse / verify / lookups / receive over HTTP; publication strings both ways; TLV parse + clone + serialize; typed list; data hasher; HMAC). '
          'For each operation a counting run measures N = SDK allocations made by the part under fault (all SDK allocations go through KSI_malloc / KSI_calloc in base.c, '
          'compiled onto the harness funnel); then for every i in 1..N the operation is re-run from a fresh state (new context and fixtures, simulated network and clock reset) '
@@ -19,9 +19,9 @@ SPEC = dict(
          'Oracle per injection: sanitizers silent; the fault was injected; the call reports an error (a verification verdict "inconclusive/NA" counts as an error report) '
          'or reports success with exactly the fault-free result; a sentinel (parse + internal verification + serialization of a known good signature) on the same context gives '
          'the fault-free result; the same operation repeated without a fault on the same context and setup objects gives the fault-free return code and result; after freeing '
-         'every returned object, the setup objects and the context no SDK allocation is live.',
-    bounds=dict(quick='60 operations; every single fault index where N <= 400, every ceil(N/400)-th index beyond (stride 2 for N up to 800, 6-7 for the block signer); no pairs',
-                thorough='60 operations; every single fault index 1..N (N up to 2696, limit 5000: no operation is strided); all pairs i<j for the 15 operations with N <= 60'),
+         'every returned object, the setup objects and the context no SDK allocation and no HTTP transfer handle is live.',
+    bounds=dict(quick='69 operations; every single fault index where N <= 400, every ceil(N/400)-th index beyond (stride 2 for N up to 800, 5 for three async requests, 6-7 for the block signer); no pairs',
+                thorough='69 operations; every single fault index 1..N (largest N about 2400, limit 5000: no operation is strided); all pairs i<j for the operations with N <= 60'),
     technique='exhaustive allocation-fault enumeration (single faults, and fault pairs for small operations) on the real compiled code under ASan/UBSan with a counting allocator funnel and live-block accounting',
     level_text='Every allocation index of every catalogue operation is failed in turn on the real code, from an identical fresh state, under ASan + restricted UBSan with exact '
                'accounting of live SDK blocks; return code, result equality, leak freedom, context usability and repeatability are checked after every injection. This is exhaustive '
